@@ -108,7 +108,7 @@ class World:
             self.pools[c["h"]] = cls.open(c["name"], self.prefix_arg(c["prefix"]))
         elif op == "drop":
             del self.pools[c["h"]]
-            gc.collect()
+            gc.collect(0)
         elif op == "move":
             os.makedirs(self.prefix_dir(c["d2"][0]), exist_ok=True)
             shutil.move(self.path(c["d1"]), self.path(c["d2"]))
@@ -140,7 +140,7 @@ class World:
             elif op == "remove_store":
                 st = p.remove_store(c["node"])
                 del st
-                gc.collect()
+                gc.collect(0)
             elif op == "save":
                 p.save()
             elif op == "close":
@@ -282,7 +282,7 @@ def quiet():
             warnings.simplefilter("ignore")
             yield
     finally:
-        gc.collect()
+        gc.collect(0)
         sys.unraisablehook = hook
         lg.setLevel(old)
 
@@ -333,7 +333,7 @@ def record(sc):
                     todo.insert(k, dict(C0, op="chdir_home"))        # the environment goes back before the next call
         finally:
             w.pools.clear()
-            gc.collect()
+            gc.collect(0)
             os.chdir(home)
             shutil.rmtree(root, ignore_errors=True)
     return dict(bs=sc["bs"], dirs=DIRS, nodes=NODESEQ, events=events)
